@@ -54,4 +54,13 @@ def runScript : List Read → Bytes → List Bytes × Option Nat
 def transmit (wireBytes : Bytes) (writeOk : Bool) : List Bytes × Nat × Bool :=
   ([wireBytes], if writeOk then 1 else 0, writeOk)
 
+/-- one Transmitter used for a history of frames: the writes, the number of intercepted frames, and each result.
+The state carried from one call to the next is empty: the transmitter keeps no payload between calls. -/
+def transmitSeq : List (Bytes × Bool) → List Bytes × Nat × List Bool
+  | [] => ([], 0, [])
+  | (w, ok) :: rest =>
+    let (ws, ic, res) := transmit w ok
+    let r := transmitSeq rest
+    (ws ++ r.1, ic + r.2.1, res :: r.2.2)
+
 end CanVerif
